@@ -501,4 +501,42 @@ example : ∃ fp ∈ Spec.filesParas [C17.hdr, C17.fpara "x \\" "A"], ∃ pre g 
   ⟨C17.fpara "x \\" "A", by decide +kernel, ["x".toList], "\\".toList, [], by decide +kernel,
     by decide +kernel, by decide +kernel⟩
 
+/-! ## the copyright holders of the paragraph found (observable `cpr=` of `cpr.find`) -/
+
+/-- on every accepted text the lossy view stores, for the paragraph it finds, the
+    `deserialize_copyrights` reading of the Copyright field of the paragraph the lossless view
+    finds: the lines of the field, and NO holder for an empty field — where the lossless
+    `copyright()` returns one empty holder (`C17_copyright_empty_witness`) -/
+theorem C17_found_copyright (s : Str) (c : Doc) (cr : Lossy.Copyright) (path : Str)
+    (hr : readModel s = some c) (hacc : Lossy.fromStr readModel s = .ok cr) :
+    Lossy.foundCopyright cr path = (Lossless.findFiles c path).map
+      (·.map fun fp => Lossy.deserializeCopyrights ((fp.get kCopyright).getD [])) := by
+  obtain ⟨_, hff, _⟩ := C17_lossless_eq_lossy_of_accepted readModel s c cr path hr hacc
+    (C17_reader_licenceNamed s c hr)
+  unfold Lossy.foundCopyright
+  rw [hff]
+  cases Lossless.findFiles c path with
+  | panic st => rfl
+  | ok o => cases o <;> simp [Outcome.map, convF]
+
+/-- the two views agree on the holders exactly when the field is not empty -/
+theorem deserializeCopyrights_eq (v : Str) (hv : v ≠ []) :
+    Lossy.deserializeCopyrights v = splitOn '\n' v := by
+  simp [Lossy.deserializeCopyrights, hv]
+
+def emptyCprText : Str := "Format: x\n\nFiles: *\nCopyright:\nLicense: MIT\n".toList
+
+/-- `Copyright:` with nothing after it: lossless `copyright()` = `[""]`, lossy `copyright` = `[]`
+    (lossy.rs:163-169) — an observable difference between the views outside the lookup -/
+theorem C17_copyright_empty_witness :
+    (readModel emptyCprText).all (fun c =>
+      decide (Lossless.foundCopyright c "q".toList = .ok (some [[]]))) = true ∧
+    (match Lossy.fromStr readModel emptyCprText with
+      | .ok cr => decide (Lossy.foundCopyright cr "q".toList = .ok (some []))
+      | .error _ => false) = true := by
+  refine ⟨?_, ?_⟩ <;> decide +kernel
+
+example : (match Lossy.fromStr readModel exText with | .ok _ => true | .error _ => false) = true ∧
+    (readModel exText).isSome = true := ⟨by decide +kernel, by decide +kernel⟩
+
 end Deb822Verif.Props.C17Text
